@@ -354,8 +354,13 @@ def classify(run, cases, info, stage):
                 canon_result(c["obs"][k0 - 1]) if k0 else "-")
             # a kernel explained by several named deviations is reported once per deviation, so that
             # every deviation has to be a known finding on its own
+            st = stage
+            if inf.get("arch"):
+                st = "shipped:%s" % inf["arch"]
             for dv in (sorted(devs) if verdict == "dev" else [None]):
-                sig = signature(c["model"]["isa"], stage, verdict, [dv] if dv else [], k0, c["kernel"])
+                sig = signature(c["model"]["isa"], st, verdict, [dv] if dv else [], k0, c["kernel"])
+                if inf.get("arch") and verdict != "dev" and k0:
+                    sig += ":" + "".join(c["kernel"][k0 - 1]["n"]).lower()
                 classes[sig] = classes.get(sig, 0) + 1
                 run.fail(sig, what, dict(inf, case=c, verdict=verdict, devs=devs, position=k0))
 
@@ -368,7 +373,7 @@ def _r2(args):
     cfgs = [("MC_Compose_%s" % isa, 2, 0)]
     if tier == "thorough":
         cfgs.append(("MC_Compose_%s_k3" % isa, 3, 3))
-    d = env.scratch("c08-r2-" + isa)
+    d = env.scratch("c08-r2-%s-%d" % (isa, os.getpid()))
     bad_cases, info = [], {}
     n_run = 0
     models_all, instrs, lines, isaf = {}, None, None, None
@@ -445,6 +450,8 @@ def _r2(args):
         run.fail("C08:%s:exception:add_semantics:r2-f8" % isa, "kernel %s raised %s: %s" % (
             [lines[x] for x in kern], type(ex).__name__, ex), {"mi": mi, "kern": kern})
     run.note("r2_kernels_%s" % isa, n_run)
+    import shutil
+    shutil.rmtree(d, ignore_errors=True)
     return isa, run, bad_cases, info, f8
 
 
@@ -482,7 +489,7 @@ def _r3_random(args):
     isa, seed, n_models, n_kernels = args
     run = Rec()
     rnd = random.Random("%s-c08-r3-%s" % (seed, isa))
-    d = env.scratch("c08-r3-" + isa)
+    d = env.scratch("c08-r3-%s-%d" % (isa, os.getpid()))
     cases, info = [], {}
     types = ["gpr", "xmm", "ymm"] if isa == "x86" else ["x", "d", "q"]
     for mi in range(n_models):
@@ -590,6 +597,8 @@ def _r3_random(args):
             info[cid] = {"where": "random model %d" % mi, "lines": lines, "isa": isa}
             if len(kernel) > 1 and sum(1 for x in kernel if ins_class(x) != "nomem") > 1:
                 run.mark(cid)
+    import shutil
+    shutil.rmtree(d, ignore_errors=True)
     return isa, run, cases, info
 
 
@@ -648,14 +657,57 @@ def _shipped_worker(args):
                     r["mem"]["post"] = {True: "t", False: "f", "*": "*"}[y.get("post_indexed", False)]
         ldd, std = uops_of(mm._data["load_throughput_default"]), uops_of(mm._data["store_throughput_default"])
     except Exception as ex:  # noqa  (malformed table rows / defaults of a shipped model belong to C15)
-        return arch, [], {}, [("load/store tables of the model", "%s: %s" % (type(ex).__name__, ex))]
+        return arch, [], {}, [("load/store tables of the model", "%s: %s" % (type(ex).__name__, ex))], []
     lm = mm._data.get("load_throughput_multiplier")
     sm = mm._data.get("store_throughput_multiplier")
+    def ent_units(x):
+        return -1 if x is None else units(x)     # -1 = the entry declares no value
+
+    def run_lines(lines):
+        forms = [parser.parse_line(ln, k + 1) for k, ln in enumerate(lines)]
+        sem.add_semantics(forms)
+        return forms
+
+    fails = []
     for vi, kernel_lines in enumerate(vocab):
         tables.restore()
         try:
-            forms = [parser.parse_line(ln, k + 1) for k, ln in enumerate(kernel_lines)]
-            sem.add_semantics(forms)
+            try:
+                forms = run_lines(kernel_lines)
+            except Exception as ex:  # noqa
+                # which instruction raises, and at which stage?  (own entry found -> its data are malformed:
+                # C15; no own entry but a register form -> the composition itself failed: C08)
+                blamed = None
+                for ln in kernel_lines:
+                    tables.restore()
+                    calls = []
+                    orig = mm.get_instruction
+                    mm.get_instruction = lambda n, o, _c=calls, _o=orig: (_c.append((any(isinstance(x, dict) for x in o), _o(n, o))) or _c[-1][1])
+                    try:
+                        run_lines([ln])
+                    except Exception as ex2:  # noqa
+                        own = any(r is not None for w, r in calls if not w)
+                        regs = [r for w, r in calls if w and r is not None]
+                        reg = bool(regs)
+                        try:
+                            # is the register form's own port list usable at all? (else: malformed entry, C15)
+                            for r in regs[:1]:
+                                uops_of(r.port_pressure)
+                        except Exception:  # noqa
+                            reg = False
+                        blamed = (ln, own, reg, "%s: %s" % (type(ex2).__name__, ex2))
+                    finally:
+                        del mm.get_instruction
+                    if blamed:
+                        break
+                if blamed and not blamed[1] and blamed[2]:
+                    f0 = parser.parse_line(blamed[0])
+                    fails.append(("C08:%s:exception:shipped:%s:%s:%s" % (isa, arch, blamed[3].split(":")[0], f0.mnemonic),
+                                  "%s: composing %r (no own entry, register form found) raised %s" % (arch, blamed[0], blamed[3]),
+                                  {"where": "shipped model %s" % arch, "lines": [blamed[0]], "arch": arch, "isa": isa}))
+                else:
+                    skipped.append((kernel_lines, "%s (entry data / parser: not C08)" % (blamed[3] if blamed else ex)))
+                continue
             res = [project_result(f, ports) for f in forms]
             kernel, ents, tyset = [], [], set()
             for f in forms:
@@ -674,8 +726,16 @@ def _shipped_worker(args):
                     for k in kinds:
                         if k["k"] == "reg":
                             tyset.add(k["c"])
-                    ents.append({"n": list(nm), "ops": [lc.clean(k) for k in kinds], "tp": units(o.throughput),
-                                 "lat": units(o.latency), "u": uops_of(o.port_pressure)})
+                    e = {"n": list(nm), "ops": [lc.clean(k) for k in kinds], "tp": ent_units(o.throughput),
+                         "lat": ent_units(o.latency), "u": uops_of(o.port_pressure)}
+                    if e["tp"] < 0 or e["lat"] < 0:
+                        # a form without throughput/latency that could serve as REGISTER form of a kernel
+                        # instruction: the statement says nothing about composing with unknown numbers
+                        for ins in kernel:
+                            if len(ins["ops"]) == len(kinds) and any(x["k"] == "mem" for x in ins["ops"]) and all(
+                                    (kk["k"] == "reg") for kk, x in zip(kinds, ins["ops"]) if x["k"] == "mem"):
+                                raise Unrepresentable("register form without throughput/latency")
+                    ents.append(e)
             tyrec = []
             for t in sorted((tyset | set(mm._data["load_latency"].keys())) - {"*"}):
                 ll = mm._data["load_latency"].get(t)
@@ -696,7 +756,7 @@ def _shipped_worker(args):
         cid = "ship|%s|%d" % (arch, vi)
         cases.append({"id": cid, "model": model, "kernel": kernel, "obs": res})
         info[cid] = {"where": "shipped model %s" % arch, "lines": kernel_lines, "isa": isa, "arch": arch}
-    return arch, cases, info, skipped
+    return arch, cases, info, skipped, fails
 
 
 def _drop(isa, name):
@@ -779,7 +839,9 @@ def main(tier, seed):
     run.note("t_r3_random_s", round(time.time() - t0, 1))
     skipped = {}
     for f in f_ship:
-        arch, cs, inf, sk = f.result()
+        arch, cs, inf, sk, fl = f.result()
+        for x in fl:
+            run.fail(*x)
         cases += cs
         info.update(inf)
         if sk:
@@ -847,7 +909,7 @@ def replay(path):
         mm, sem, parser = synth.load_arch(c["arch"])
         ports = list(mm.get_ports())
     else:
-        d = env.scratch("c08-replay")
+        d = env.scratch("c08-replay-%d" % os.getpid())
         a, i = write_model(d, model, isa_forms_for(isa, case["kernel"]), "replay")
         mm, sem, parser = synth.load(a, i)
         ports = _ports(model["np"])
